@@ -125,9 +125,55 @@ func c02FailClosed(c *core.Ctx) {
 		c.Violate(rule, "statuschecker.CheckPendingCertificatesStatus#open-cert-is-pending", fn.Pos(), "no `!certificateLocal.IsClosed()` test")
 		return
 	}
+	// the accumulator may also be a field of a local result struct: `res.ExistPendingCerts = true … return res`
+	pendingFieldStore := func(i ssa.Instruction) (*ssa.Store, bool) {
+		st, ok := i.(*ssa.Store)
+		if !ok {
+			return nil, false
+		}
+		fa, ok := st.Addr.(*ssa.FieldAddr)
+		if !ok || fieldNameOf(fa) != "ExistPendingCerts" {
+			return nil, false
+		}
+		_, local := fa.X.(*ssa.Alloc)
+		return st, local
+	}
+	overwritten := false
+	core.Instrs(fn, func(i ssa.Instruction) {
+		if st, ok := pendingFieldStore(i); ok && isConstBool(st.Val, true) {
+			fa := st.Addr.(*ssa.FieldAddr)
+			if f := (&core.Walk{Target: func(x ssa.Instruction) bool {
+				st2, ok := pendingFieldStore(x)
+				return ok && st2.Addr.(*ssa.FieldAddr).X == fa.X && !isConstBool(st2.Val, true)
+			}}).From(core.After(st), nil); f != nil {
+				overwritten = true
+			}
+		}
+	})
+	// in the struct form every return hands back that struct (or a literal that says pending)
+	var accAlloc ssa.Value
+	core.Instrs(fn, func(i ssa.Instruction) {
+		if st, ok := pendingFieldStore(i); ok && isConstBool(st.Val, true) {
+			accAlloc = st.Addr.(*ssa.FieldAddr).X
+		}
+	})
+	if accAlloc != nil {
+		for _, r := range core.Returns(fn) {
+			if u, isLoad := r.Results[0].(*ssa.UnOp); isLoad && u.X == accAlloc {
+				continue
+			}
+			if v := pendingOf(r); v != nil && isConstBool(v, true) {
+				continue
+			}
+			overwritten = true // a return that does not carry the accumulator: treat the struct form as unrecognised
+		}
+	}
 	for _, e := range open {
 		start := core.Point{B: e.B.Succs[e.Succ], I: 0}
-		bad := (&core.Walk{TargetEnv: func(i ssa.Instruction, env core.Env) bool {
+		bad := (&core.Walk{Stop: func(i ssa.Instruction) bool {
+			st, ok := pendingFieldStore(i)
+			return ok && isConstBool(st.Val, true) && !overwritten
+		}, TargetEnv: func(i ssa.Instruction, env core.Env) bool {
 			r, ok := i.(*ssa.Return)
 			if !ok {
 				return false
